@@ -309,9 +309,9 @@ def body_simulator(case, ctx):
 
 
 SUBCHECKS = [
-    SubCheck("image", body_image, strategy=image_case(), examples={"quick": 250, "thorough": 4000}, shards={"quick": 4, "thorough": 8}),
-    SubCheck("matrix", body_matrix, strategy=matrix_case(), examples={"quick": 250, "thorough": 4000}, shards={"quick": 4, "thorough": 8}),
-    SubCheck("extract", body_extract, strategy=extract_case(), examples={"quick": 60, "thorough": 1200}, shards={"quick": 3, "thorough": 8}),
+    SubCheck("image", body_image, strategy=image_case(), examples={"quick": 1200, "thorough": 12000}, shards={"quick": 8, "thorough": 16}),
+    SubCheck("matrix", body_matrix, strategy=matrix_case(), examples={"quick": 1200, "thorough": 12000}, shards={"quick": 8, "thorough": 16}),
+    SubCheck("extract", body_extract, strategy=extract_case(), examples={"quick": 240, "thorough": 3200}, shards={"quick": 8, "thorough": 16}),
     SubCheck("reject", body_reject, strategy=reject_case(), examples={"quick": 60, "thorough": 600}, shards={"quick": 1, "thorough": 2}),
-    SubCheck("simulator", body_simulator, strategy=simulator_case(), examples={"quick": 100, "thorough": 1500}, shards={"quick": 2, "thorough": 8}),
+    SubCheck("simulator", body_simulator, strategy=simulator_case(), examples={"quick": 400, "thorough": 4000}, shards={"quick": 4, "thorough": 16}),
 ]
